@@ -23,7 +23,10 @@ func runEnum(c *runCtx, job string, shards int) (*proto.EnumOut, error) {
 			defer wg.Done()
 			sem <- struct{}{}
 			defer func() { <-sem }()
-			ob, _ := json.Marshal(proto.EnumOpts{Shard: i, NShards: shards, Tier: c.Tier})
+			// the registered quick tier runs the families the enumerations call "thorough" (they
+			// take seconds); the registered thorough tier adds the "deep" families
+			et := map[string]string{"quick": "thorough", "thorough": "deep"}[c.Tier]
+			ob, _ := json.Marshal(proto.EnumOpts{Shard: i, NShards: shards, Tier: et})
 			cmd := exec.Command(c.Bin, "job", job, string(ob))
 			dir := fmt.Sprintf("%s/e%d", c.Scratch, i)
 			os.MkdirAll(dir, 0o755)
@@ -137,13 +140,13 @@ func enumCheck(job, rule string, assumptions []string) *checkDef {
 
 func init() {
 	checks["C15"] = enumCheck("c15",
-		"all strings of length <=5 (quick) / <=7 (thorough) over the 12 symbols {0,1,5,9,.,+,-,e,_,space,NUL,U+0663}; all <digits>.<digits> with parts over {0,1,9} up to 6/8 digits plus 14 boundary tails (9-10 digits, supply limit +-1); integers 0..2e6, d*10^k+-1 for d=1..9,k=0..17, supply limit +-2, MaxInt64 and negatives; reference = exact decimal arithmetic on strings (math/big); non-trivial = input containing both a digit and a non-digit (parse) or a non-zero fraction (format)",
+		"all strings of length <=7 over the 12 symbols {0,1,5,9,.,+,-,e,_,space,NUL,U+0663}; all <digits>.<digits> with parts over {0,1,9} up to 8 digits plus 14 boundary tails (9-10 digits, supply limit +-1); integers 0..2e6, d*10^k+-1 for d=1..9,k=0..17, supply limit +-2, MaxInt64 and negatives; reference = exact decimal arithmetic on strings (math/big); non-trivial = input containing both a digit and a non-digit (parse) or a non-zero fraction (format)",
 		[]string{"open forms \"\", \".\", \".5\", \"5.\" may be rejected or read at their natural value (C15 leaves them open)", "small-scope claim over the listed families, not over all strings"})
 }
 
 func init() {
 	checks["C13"] = enumCheck("c13",
-		"entropies of the five legal sizes: all-zero, all-ones, every leading-zero run, every placement of one byte from {01,7f,80,ff} and (16-byte size and edge positions in quick, all sizes in thorough) of two such bytes; seeds for every 97th/11th entropy x 3 passphrases (empty, ASCII, NFKD-sensitive); negative family: per size 3 base mnemonics x (6 substitutions per position, adjacent transpositions, every truncation, extensions, 7 re-spacings); reference = independent bit-slicing encoder/decoder + own PBKDF2-HMAC-SHA512, validated against BIP-39 vectors 1 and 2 and the SHA-256 of the official english.txt; non-trivial = entropy with a leading zero byte or non-zero content, and every mutated sequence",
+		"entropies of the five legal sizes: all-zero, all-ones, every leading-zero run, every placement of one byte from {01,7f,80,ff} and of two such bytes; the thorough tier adds every value of every single byte position on three backgrounds and the full 65536 sweep of the last two bytes per size; seeds for every 11th entropy x 9 passphrases (empty, ASCII, NFKD-sensitive, and six with white space at either end or inside); negative family: per size 3 base mnemonics x (6 substitutions per position, adjacent transpositions, every truncation, extensions, 7 re-spacings); reference = independent bit-slicing encoder/decoder + own PBKDF2-HMAC-SHA512, validated against BIP-39 vectors 1 and 2 and the SHA-256 of the official english.txt; non-trivial = entropy with a leading zero byte or non-zero content, and every mutated sequence",
 		[]string{"IsMnemonicValid is only required to reject wrong lengths and non-list words (its documented contract); checksum acceptance is judged on EntropyFromMnemonic/MnemonicToByteArray/NewSeedWithErrorChecking",
 			"re-spaced but otherwise valid sentences may be accepted or rejected; if accepted the entropy must be right",
 			"small-scope claim over the listed families, not over all 2^256 entropies"})
@@ -151,12 +154,12 @@ func init() {
 
 func init() {
 	checks["C14"] = enumCheck("c14",
-		"masters from structured seeds of 16/32/64 bytes (all-zero, all-ff, one byte from {01,80,ff} at every position, BIP-32 vector seeds) x all paths over indexes {0,1,2^31-1,2^31,2^31+1} to depth 2 (quick) / 3 (thorough): private key, public key, chain code, depth, fingerprint, serialisation, neuter-commutes, parse(serialise)=id and equal behaviour of the parsed key; parents whose scalar has leading zero bytes reached deliberately by searching child indexes with the reference (4/12 per parent) and deriving their hardened and non-hardened children; every single-character corruption (3 alternatives), truncation and extension of a serialised xprv and xpub; crafted serialisations with valid checksum and out-of-range/off-curve key material; reference = independent CKDpriv/CKDpub with padded ser256 validated against BIP-32 vectors 1-3; non-trivial = derivations from a short-scalar parent and all corruptions",
+		"masters from structured seeds of 16/32/64 bytes (all-zero, all-ff, one byte from {01,80,ff} at every position, BIP-32 vector seeds) x all paths over indexes {0,1,2^31-1,2^31,2^31+1} to depth 3: private key, public key, chain code, depth, fingerprint, serialisation, neuter-commutes, parse(serialise)=id and equal behaviour of the parsed key; parents whose scalar has leading zero bytes reached deliberately by searching child indexes with the reference (12 per parent) and deriving their hardened and non-hardened children; every single-character corruption (3 alternatives), truncation and extension of a serialised xprv and xpub; crafted serialisations with valid checksum and out-of-range/off-curve key material; reference = independent CKDpriv/CKDpub with padded ser256 validated against BIP-32 vectors 1-3; non-trivial = derivations from a short-scalar parent and all corruptions",
 		[]string{"btcec is trusted for curve arithmetic", "small-scope claim over the listed families"})
 }
 
 func init() {
 	checks["C16"] = enumCheck("c16",
-		"all scripts of <=4 (quick) / <=5 (thorough) items over a 27-item alphabet (OP_0, OP_1, OP_2, OP_RETURN, OP_CHECKMULTISIG, OP_CHECKSEQUENCEVERIFY, OP_DROP, OP_1NEGATE, pushes of 32/31/33/20/22 bytes incl. valid, Chia, unknown-type and oversize binding targets, 8-byte frozen periods min/max/0/max+1/2^64-1, a 33-byte pubkey, a non-minimal PUSHDATA1 push, truncated pushes); every single-byte mutation (6 mutators per position), truncation and 6 one-byte extensions of 21 valid templates (3 hashes x {standard, staking x3 periods, binding x3 targets}); builders read back for 3 hashes x 5 frozen periods x 3 targets; oracle = txscript.GetScriptClass/ExtractPkScriptAddrs and an independent field decode; every call under recover(); non-trivial = scripts consensus classifies as one of the three wallet templates",
+		"all scripts of <=5 items over a 27-item alphabet (OP_0, OP_1, OP_2, OP_RETURN, OP_CHECKMULTISIG, OP_CHECKSEQUENCEVERIFY, OP_DROP, OP_1NEGATE, pushes of 32/31/33/20/22 bytes incl. valid, Chia, unknown-type and oversize binding targets, 8-byte frozen periods min/max/0/max+1/2^64-1, a 33-byte pubkey, a non-minimal PUSHDATA1 push, truncated pushes); every single-byte mutation (6 mutators per position), truncation and 6 one-byte extensions of 21 valid templates (3 hashes x {standard, staking x3 periods, binding x3 targets}); builders read back for 3 hashes x 5 frozen periods x 3 targets; oracle = txscript.GetScriptClass/ExtractPkScriptAddrs and an independent field decode; every call under recover(); non-trivial = scripts consensus classifies as one of the three wallet templates",
 		[]string{"where consensus itself cannot encode an address of a template (unknown binding target type) the wallet is only required not to panic and not to accept", "small-scope claim over the listed families"})
 }
